@@ -39,7 +39,11 @@
  * still satisfy their constraints) and does not explore the successor.  Words
  * that belong to no register are nobody's value: after a typed set, a bit
  * operation and sanitise only register words are compared.  A table that
- * register_init refuses ends as a trivial case (C04's sentence).
+ * register_init refuses ends as a trivial case (C04's sentence).  So does a
+ * one-fault environment operation after which the table answers UNINITIALISED
+ * (latched-after-fault: no statement mentions driver I/O errors; successor not
+ * explored).  Part 2 on a corrupted area that is not flagged readable demands
+ * only what the unwritable branch demands (sanitise-unspecified).
  */
 #include "mc.h"
 #include "regtab.h"
@@ -512,6 +516,7 @@ struct op {
 };
 static struct op *ops;
 static int nops, capops;
+static bool g_trivial;    /* do_op: the transition is a trivial case (table out of service after an injected fault) */
 static int g_fault_reg;   /* the register the faulted typed set addresses */
 static uint32_t g_run_words; /* words of the first run of adjacent areas (the faulted block write covers it) */
 
@@ -641,6 +646,7 @@ do_op(const struct op *o, bool *ok)
     const size_t total = flat_snapshot(&tb, before);
     memcpy(expect, before, sizeof expect);
     const char *outcome = "?";
+    g_trivial = false;
     /* how the storage after the operation is judged:
      *   CMP_FULL      every word equals the model's prediction (block write: "exactly those n words change")
      *   CMP_REGWORDS  every word that belongs to a register equals the prediction
@@ -790,11 +796,24 @@ do_op(const struct op *o, bool *ok)
             a = register_block_write(&tb.t, spec.a[0].base, g_run_words, buf);
             free(buf);
         }
-        const bool hit = (tb.cb_fail_read_at >= 0 && tb.cb_reads > tb.cb_fail_read_at) || (tb.cb_fail_write_at >= 0 && tb.cb_writes > tb.cb_fail_write_at);
+        const bool hit = tab_fault_reached(&tb);
         tb.cb_fail_read_at = tb.cb_fail_write_at = -1;
         mc_log("-> %s@%u (fault %s)", acc(a.code), a.address, hit ? "reached" : "not reached");
         outcome = hit ? "fault-injected" : "fault-not-reached";
         flat_snapshot(&tb, expect); /* nothing demanded of the storage */
+        if (hit && tab_out_of_service(&tb)) {
+            /* the table answers UNINITIALISED after the I/O error (fail-safe
+             * latch).  No statement mentions driver I/O errors and C05 starts
+             * "from a successfully initialised table": the successor is not a
+             * state of the statement -- trivial case, not explored.  The table
+             * object is brought back into service for the transitions that
+             * follow (tab_from_key puts the flag word back as well). */
+            mc_log("the table answers UNINITIALISED after the injected I/O error: out of service, successor not explored");
+            g_trivial = true;
+            *ok = false;
+            (void)register_init(&tb.t);
+            return "latched-after-fault";
+        }
         if (invariant_violation() >= 0)
             *ok = false; /* environment-induced: not a violation, but not a clean state either: not explored */
         touched_restore(&tb, 0);
@@ -1020,6 +1039,14 @@ corruption(int ti, bool thorough)
                     sel[f1] = c1;
                     bool ok = true;
                     long nreset = 0, nkept = 0, nhit = 0, nunwritable = 0;
+                    /* a corrupted area that is not flagged readable: whether its
+                     * content is content sanitise has to look at is left open
+                     * (assumptions; part 1 does not judge sanitise on such tables
+                     * either).  Judged like the unwritable branch, own class. */
+                    bool unreadable = false;
+                    for (int i = 0; i < spec.na; ++i)
+                        if ((g_corrupt_areas & (1u << i)) && !flat_readable(&spec.a[i]))
+                            unreadable = true;
                     for (;;) {
                         /* build corrupted image */
                         struct key c = k;
@@ -1054,6 +1081,10 @@ corruption(int ti, bool thorough)
                         const bool hit = (fread >= 0 && tb.cb_reads > fread) || (fwrite >= 0 && tb.cb_writes > fwrite);
                         tb.cb_fail_read_at = tb.cb_fail_write_at = -1;
                         mc_trans(1);
+                        /* a table taken out of service by the I/O error is brought
+                         * back for the next image (tab_from_key restores storage
+                         * and flag word); this sanitise run is judged as before */
+                        const bool revive = hit && tab_out_of_service(&tb);
                         RegisterAtom after[RT_MAXW];
                         const size_t total = flat_snapshot(&tb, after);
                         if (mc.verbose) {
@@ -1066,7 +1097,7 @@ corruption(int ti, bool thorough)
                         if (tb.cb_oob) {
                             mc_fail("C05/area-bounds", "sanitise: area callback asked for words outside its area");
                             ok = false;
-                        } else if (hit || unwritable) {
+                        } else if (hit || unwritable || unreadable) {
                             /* a reset could not be carried out (I/O error, no write
                              * callback) or the statement leaves open whether it is
                              * (area flagged read-only).  The statement fixes no return
@@ -1082,6 +1113,8 @@ corruption(int ti, bool thorough)
                                     continue;
                                 if (!area_resettable(&spec.a[flat_area_of(&spec, spec.r[r].addr)]))
                                     continue;
+                                if (!flat_readable(&spec.a[flat_area_of(&spec, spec.r[r].addr)]))
+                                    continue; /* content sanitise need not look at */
                                 const uint64_t bits = reg_bits_now(r);
                                 if (!ref_storable(spec.r[r].type, bits) || !ref_constraint(&spec.r[r], ref_from_bits(spec.r[r].type, bits)))
                                     bad = r;
@@ -1113,6 +1146,8 @@ corruption(int ti, bool thorough)
                             mc_fail("C05/invariant", "invariant does not hold after sanitise");
                             ok = false;
                         }
+                        if (revive)
+                            (void)register_init(&tb.t);
                         if (!ok)
                             break;
                         /* next combination of the other words */
@@ -1131,6 +1166,7 @@ corruption(int ti, bool thorough)
                             break;
                     }
                     const char *cls = !ok ? "failed"
+                           : unreadable ? "sanitise-unspecified"
                            : fi > 0 ? (nhit ? "sanitise-fault-reached" : "sanitise-fault-not-reached")
                            : nunwritable ? "sanitise-unwritable-corrupted"
                            : nreset == 0 ? "sanitise-nothing-to-reset" : nkept == 0 ? "sanitise-all-reset" : "sanitise-mixed";
@@ -1246,7 +1282,7 @@ run_table(int ti, int part)
                 key_from_tab(&nk);
                 mc_set_add(&set, &nk, sizeof nk, cur, oi, NULL);
             }
-            mc_end(true, g_top ? top_class(outcome) : outcome);
+            mc_end(!g_trivial, g_top ? top_class(outcome) : outcome);
         }
         if (set.n > 2000000) {
             mc_cap("state cap 2000000 hit on T%d", ti + 1);
